@@ -20,6 +20,7 @@ RULE = (
     "Requests are biased to cluster, sub-cluster and L2-table boundaries. QCow2(...).read must equal the overlay model "
     "(layer over backing over zeros). Non-trivial = a request touches >= 2 described clusters of >= 2 kinds, or crosses an "
     "L2-table boundary, or touches a sub-cluster bitmap that is neither empty nor full."
+    ' Overlay backing-file names also placed so that they end exactly with the first cluster; images without data file / backing also re-read through a minimal caller-side file object, or by a second reader opened on the same handle after the first was dropped.'
 )
 ASSUMPTIONS = [
     "zstd-compressed images are out of the generated domain (zstandard is not installable offline; C12 checks refusal)",
